@@ -258,6 +258,14 @@ func checkErrorAt(t fataler, who string, input []byte, err error, lo, hi int, st
 	if !ok {
 		return false
 	}
+	// the documented accessors give the same triple: Position() "returns the line, column, and context of the error",
+	// Error() is "the error string, containing the context and line + column number"
+	if l, c, ctx := pe.Position(); l != pe.Line || c != pe.Column || ctx != pe.Context {
+		t.Fatalf("%s on %q: Error.Position() = (%d, %d, %q), the fields are (%d, %d, %q)", who, input, l, c, ctx, pe.Line, pe.Column, pe.Context)
+	}
+	if s := pe.Error(); !strings.Contains(s, pe.Message) || !strings.Contains(s, pe.Context) || !strings.Contains(s, fmt.Sprintf("line %d ", pe.Line)) || !strings.Contains(s, fmt.Sprintf("column %d\n", pe.Column)) {
+		t.Fatalf("%s on %q: Error() = %q does not contain the message %q, line %d, column %d and the context %q", who, input, s, pe.Message, pe.Line, pe.Column, pe.Context)
+	}
 	found := -1
 	for o := 0; o <= len(input); o++ {
 		l, c, ctx := parse.Position(bytes.NewReader(input), o)
